@@ -22,11 +22,16 @@ for key in sorted(rows):
     title = ''
     if os.path.exists(d + '/notes.md'):
         title = open(d + '/notes.md').readline().strip('# \n')
-        title = re.sub(r'^C\d\d\s*/\s*(seeded2?\s*)?(seeded\s*)?(mutant\s*)?m?\w*\s*(—|--|-)\s*', '', title)
+        m2 = re.search(r'\s(—|--|-)\s', title)
+        if m2:
+            title = title[m2.end():]
     mp = d + '/meta.json'
     if os.path.exists(mp):
         meta = json.load(open(mp))
         meta['detected_by'] = {'check': key[:3], 'tier': 'quick', 'exit': rows[key]['exit'], 'first_report': rows[key]['summary']}
         json.dump(meta, open(mp, 'w'), indent=1)
     r = rows[key]
-    print('| %s | %s | %s |' % (key, title[:150].replace('|', '/'), ('exit %d: ' % r['exit']) + r['summary'][:170].replace('|', '/')))
+    short = r['summary']
+    short = re.sub(r' on r?trace_\S+\.ndjson', '', short)
+    short = re.sub(r'; pre-world.*', '', short)
+    print('| %s | %s | %s |' % (key, title[:140].replace('|', '/'), ('exit %d: ' % r['exit']) + short[:130].replace('|', '/')))
